@@ -204,6 +204,31 @@ def check(pid, tier, seed, t0, st, replay):
                                            how='scan the program, then run the query with `pathfinder query --output json`'))
                 break
         res.coverage['kind_pairs_queried'] = len(pq)
+        # filtered through a predicate whose parameter is typed with the kind (the documented idiom), alone and next to
+        # another entity whose alias is contained in this one's (c / xc)
+        prq = []
+        for k in ks:
+            other = 'class_declaration' if k != 'class_declaration' else 'method_declaration'
+            prq.append(('p1:' + k, 1, 'predicate sel(%s e) { e.toString() != "" } FROM %s AS x WHERE sel(x) SELECT x.toString()' % (k, k)))
+            if other in obs2:
+                prq.append(('p2:' + k, obs2[other], 'predicate sel(%s e) { e.toString() != "" } FROM %s AS c, %s AS xc WHERE sel(xc) SELECT xc.toString()' % (k, other, k)))
+                prq.append(('p3:' + k, obs2[other], 'predicate sel(%s e) { e.toString() != "" } FROM %s AS xc, %s AS c WHERE sel(xc) SELECT xc.toString()' % (k, k, other)))
+        prres, _ = qrun.run_queries(proj2, [(qid, q) for qid, _, q in prq], work + '/q3')
+        for qid, mult, q in prq:
+            k = qid.split(':', 1)[1]
+            oc, payload = prres.get(qid, ('missing', ''))
+            evals += 1
+            nrows = -1
+            if oc == 'ok':
+                try:
+                    nrows = len(qrun.parse_result(payload)[1] or [])
+                except Exception:
+                    pass
+            if nrows != obs2[k] * mult:
+                res.violations.append(dict(property=pid, what='kind %s is produced by the scanner but cannot be filtered through a predicate typed with it' % k, query=q, outcome=oc,
+                                           detail=payload[:300], expected_results=obs2[k] * mult, got=nrows, program=KITCHEN, how='scan the program, then run the query with `pathfinder query --output json`'))
+                break
+        res.coverage['kind_typed_predicate_queries'] = len(prq)
         res.coverage.update(dict(
             evaluations=evals, distinct_nontrivial=len(observed), exhaustive=(not unseen),
             rule='every entity kind observed on the kitchen-sink family (all supported constructs, all 19 operators) is queried with `FROM k AS x SELECT x` and one accessor-based WHERE through the real processQuery; expected = number of entities of that kind in graph.Initialize; distinct = kinds',
